@@ -130,6 +130,67 @@ theorem stale_handle_rejected_and_inert_history (s : St) (cmds : List Cmd) (h : 
   · rw [hnf] at hf; cases hf
   · exact stale_handle_rejected_and_inert _ h (fun hl => hs hl.2)
 
+theorem setTimer_empty_not_live (s2 : St) (i c : Nat) (t : TimerSlot) (hlt : i < s2.timers.length)
+    (ht : t.state = .empty) : ¬ liveT (s2.setTimer i t) i c := by
+  unfold liveT
+  rw [timerSlot_setTimer]
+  simp only [hlt, true_and, not_true_eq_false, false_and, or_false, if_true]
+  exact fun hl => hl.2 ht
+
+/-- **deleted_never_runs (timers), first half**: a successful `qb_loop_timer_del` leaves the registration stale
+    (slot EMPTY) — also when the timer had ALREADY been moved to the job list; by `stale_stays_stale` it is then
+    never dispatched and the handle is rejected for ever.  (`≠ deleted`: timer slots never take the DELETED
+    state; not proved here, hence a hypothesis.) -/
+theorem timer_del_makes_stale (s : St) (h : Nat) (hrc : (s.timerDel h).2 = 0)
+    (hnd : (s.timerSlot (h % 2^32)).state ≠ .deleted) :
+    ¬ liveT (s.timerDel h).1 (h % 2^32) (h / 2^32) := by
+  have hlen : ∀ st, (s.timerSlot (h % 2^32)).state = st → st ≠ .empty → h % 2^32 < s.timers.length := by
+    intro st hs hne
+    by_cases hlt : h % 2^32 < s.timers.length
+    · exact hlt
+    · rw [timerSlot_ge s _ hlt] at hs; exact absurd hs.symm hne
+  by_cases h0 : h = 0
+  · simp [St.timerDel, St.timerFromHandle, h0, EINVAL] at hrc
+  · by_cases hc : (s.timerSlot (h % 2^32)).check = h / 2^32
+    · cases hs : (s.timerSlot (h % 2^32)).state with
+      | deleted => exact absurd hs hnd
+      | empty => simp [St.timerDel, St.timerFromHandle, h0, hc, hs, EINVAL] at hrc
+      | active =>
+        have hlt := hlen _ hs (by simp)
+        simp only [St.timerDel, St.timerFromHandle, h0, hc, hs, if_false, ne_eq, not_true_eq_false,
+          show (EState.active == EState.deleted) = false from rfl,
+          show (EState.active != EState.active && EState.active != EState.joblist) = false from rfl,
+          show (EState.active == EState.joblist) = false from rfl, Bool.false_eq_true]
+        apply setTimer_empty_not_live _ _ _ _ _ rfl
+        split <;> simpa using hlt
+      | joblist =>
+        have hlt := hlen _ hs (by simp)
+        simp only [St.timerDel, St.timerFromHandle, h0, hc, hs, if_false, ne_eq, not_true_eq_false,
+          show (EState.joblist == EState.deleted) = false from rfl,
+          show (EState.joblist != EState.active && EState.joblist != EState.joblist) = false from rfl,
+          show (EState.joblist == EState.joblist) = true from rfl, Bool.false_eq_true, if_true]
+        apply setTimer_empty_not_live _ _ _ _ _ rfl
+        split <;> simpa using hlt
+    · simp [St.timerDel, St.timerFromHandle, h0, hc, EINVAL] at hrc
+
+theorem setTimer_self_empty_not_live (s2 : St) (i c : Nat) (t : TimerSlot) (ht : t.state = .empty) :
+    ¬ liveT (s2.setTimer i t) i c := by
+  unfold liveT
+  rw [timerSlot_setTimer]
+  split
+  · exact fun hl => hl.2 ht
+  · rename_i hcond
+    by_cases hlt : i < s2.timers.length
+    · exact absurd (Or.inl ⟨hlt, rfl⟩) hcond
+    · rw [timerSlot_ge s2 i hlt]; exact fun hl => hl.2 rfl
+
+/-- **timer_runs_at_most_once, first half**: when `timer_dispatch` returns, slot i is EMPTY — every registration
+    (i, c) is stale, whatever the callback did (re-adding into another slot, deleting others, …); by
+    `stale_stays_stale` a word drawn before is then never dispatched from slot i by any later line. -/
+theorem timer_dispatch_makes_stale (s : St) (i c : Nat) : ¬ liveT (s.dispatch (.timer i)).1 i c := by
+  rw [dispatch_timer]
+  exact setTimer_self_empty_not_live _ i c _ rfl
+
 /-- non-vacuity of the hypotheses of `stale_stays_stale` / `…_history` -/
 example : ∃ (s : St) (i c : Nat), NN s ∧ chkLe s ∧ 1 ≤ c ∧ c ≤ s.nonce ∧ ¬ liveT s i c :=
   ⟨St.init {}, 0, 1, (nn_chk_reachable {} [] (fun c hc => by cases hc)).1,
